@@ -195,8 +195,9 @@ def extract():
     for n in ast.walk(ll):
         if isinstance(n, ast.Name) and n.id in ren:
             n.id = ren[n.id]
-    c, _, _ = _shape(ll)
-    _expect("_load_length comparisons", c, ["cur_length >= min_size", "level < 0", "level > grammar['max_level']"])
+    # the comparisons of _load_length are no longer text-matched here: the whole function is translated on every run
+    # and proved equal to TextFile.ln_levels / ln_guesser (harness/translate_loader2.py, Loader2GenProofs.omen_load_length_eq),
+    # which accepts equivalent ways of writing them (chained comparison, enumerate, a local for grammar['max_level'])
     ml = None
     for n in ast.walk(_func(gi, "_load_config")):
         if isinstance(n, ast.Assign) and ast.unparse(n.targets[0]) == "grammar['max_level']":
